@@ -1,4 +1,4 @@
-import Wip.AS1
+import Cutadapt.Proofs.AlignSoundScript
 /-! Soundness of `Align.locate`, part 2: one column step (`stepColumn`, `shrinkLast`). -/
 namespace Cutadapt.Align.Sound
 open Cutadapt Cutadapt.Align Cutadapt.Spec Cutadapt.Generated
@@ -97,7 +97,7 @@ theorem stepCell0_inv {ctx : Ctx} (hc : 1 ≤ ctx.cfg.indelCost) {j : Nat} (hj :
       unfold Good
       rw [decode_nonneg (show (0:Int) ≤ c0.origin + 1 by omega)]
       simp only
-      refine ⟨Nat.le_refl _, by omega, .inl rfl, .inr hq, s', ?_, hr', ?_⟩
+      refine ⟨Nat.le_refl _, by omega, .inl trivial, .inr hq, s', ?_, hr', ?_⟩
       · rw [hl', seg_self]
       · rw [hc', seg_length]
         have e : min (j + 1) ctx.query.length - (c0.origin + 1).toNat = min j ctx.query.length - c0.origin.toNat := by
@@ -111,7 +111,8 @@ theorem stepCell0_inv {ctx : Ctx} (hc : 1 ≤ ctx.cfg.indelCost) {j : Nat} (hj :
     have := (key (by omega)).1
     have := hs2 h0
     omega
-  · simp only [hq]
+  · have hq' : ctx.cfg.startInQuery = false := by simpa using hq
+    simp only [hq', Bool.false_eq_true, if_false]
     refine ⟨?_, ?_⟩
     · intro hk
       simp only at hk
